@@ -26,7 +26,9 @@ class Prop(PropBase):
             nf = rng.choice([1, 2, 3, 4, 6]) if tier == "quick" else rng.choice([2, 4, 8, 16, 40])
             line = sg.frames(rng, nf)
             cs.append(Case(line, tag="frames", nontrivial=line.count(" dr") >= 2, cfgs=[rng.choice(CFGS) for _ in range(2)]))
-        for line, cf in sg.large_canvas_edits(rng, CFGS):
+        for _ in range(150 if tier == "quick" else 3000):
+            cs.append(Case(sg.frames(rng, rng.choice([1, 2, 3]), mismatch=True), tag="frames-size-mismatch", oracle=False))
+        for line, cf in sg.large_canvas_edits(rng, CFGS, tier):
             cs.append(Case(line, sweep="large-canvas-edits", cfgs=cf))
         for line, cf in sg.glyph_byte_edits(CFGS_NOIMM if "CFGS_NOIMM" in globals() else CFGS):
             cs.append(Case(line, sweep="glyph-byte-edits", cfgs=cf))
